@@ -43,6 +43,21 @@ def inputs_for(tier, w):
             a = None   # shares fixed file names in the working directory by design of that option
         if a:
             inputs.append({"name": c["id"], "args": a, "callbacks": c["callbacks"]})
+    # inputs that switch on lazily generated helper items / unordered containers
+    special = {
+        "sp-complex.h": ("double _Complex z;\nfloat _Complex cf(float _Complex a);\nstruct hc { double _Complex c; int i; };\n", []),
+        "sp-plain.h": ("struct plain { int a; char b; };\nint use_plain(struct plain *p);\n", []),
+        "sp-abis.h": ("int __attribute__((stdcall)) s1(int);\nint __attribute__((fastcall)) f1(int);\nint c1(int);\n"
+                      "int __attribute__((stdcall)) s2(int);\nint c2(int);\nint __attribute__((fastcall)) f2(int);\nextern int v1;\n",
+                      ["--merge-extern-blocks", "--", "--target=i686-unknown-linux-gnu"]),
+        "sp-helpers.h": ("struct fl { int n; char d[]; };\nunion un { int i; float f; };\nstruct bf { unsigned a:3; unsigned b:5; };\n"
+                         "struct big { char c[40]; };\n", ["--no-derive-copy", "--with-derive-default"]),
+    }
+    for nm, (text, fl) in sorted(special.items()):
+        hp = os.path.join(w, nm)
+        with open(hp, "w") as f:
+            f.write(text)
+        inputs.append({"name": nm, "args": ["bindgen", "--formatter=none", hp] + fl, "callbacks": None})
     for name, fam in sorted(gen_orders.FAMILIES.items()):
         hp = os.path.join(w, name + (".hpp" if fam["lang"] == "c++" else ".h"))
         order = [("def", d) for d in topo(fam)]
@@ -114,12 +129,18 @@ def histories(res, tier):
     # the same builder repeatedly on one thread, and 16 threads with the same input
     out.append({"order": [0] * 6, "inputs": [0] * 6})
     out.append({"order": list(range(16)), "inputs": [1] * 16})
+    # every special input after every other one, on one thread and interleaved on two
+    out.append({"order": [0] * 12, "inputs": [0, 1, 0, 1, 2, 1, 3, 1, 0, 3, 2, 0], "special": True})
+    out.append({"order": [0, 1] * 6, "inputs": [0, 1, 1, 0, 2, 1, 1, 3, 3, 0, 0, 2], "special": True})
     return out
 
 
 def run_history(w, k, h, inputs, rnd):
     nin = max(h["inputs"]) + 1
     chosen = rnd.sample(range(len(inputs)), min(nin, len(inputs)))
+    if h.get("special"):
+        sp = [k for k, x in enumerate(inputs) if x["name"].startswith("sp-")]
+        chosen = sp[:nin] if len(sp) >= nin else chosen
     nthreads = max(h["order"]) + 1
     threads = [[] for _ in range(nthreads)]
     jobs = []
@@ -210,9 +231,10 @@ def run(res, tier):
     res.sample_case({"history": hs[0], "inputs": [i["name"] for i in inputs[:4]]})
     # repeated processes, ASLR on / off
     nproc = 0
-    for inp in inputs[: (40 if tier == "thorough" else 10)]:
+    reps = [x for x in inputs if x["name"].startswith("sp-")] + inputs[: (40 if tier == "thorough" else 8)]
+    for inp in reps:
         outs = []
-        for pre in ([], ["setarch", "x86_64", "-R"], []):
+        for pre in ([], ["setarch", "x86_64", "-R"], [], [], ["setarch", "x86_64", "-R"], []):
             env = dict(os.environ)
             env["VERIF_DUMMY_%d" % len(outs)] = "x" * (len(outs) * 37 + 1)   # shifts the environment block
             p = subprocess.run(pre + [C.BINDGEN] + inp["args"][1:], stdout=subprocess.PIPE, stderr=subprocess.PIPE,
